@@ -24,3 +24,15 @@ func VerifNewTableGC() func() {
 	nodeTableStoreGC = gc
 	return gc.GC
 }
+
+// VerifCopyPieceSize, when > 0, replaces the size of the pieces (2 x fileops.DefaultBufferSize = 512 KiB) in which
+// mergePerformer.WriteOriginal copies the chunk of a series that an out-of-order merge does not touch. Only the C03
+// overlay rewrites that one line to call VerifCopyPiece; with the value 0 the behaviour is the unmodified one.
+var VerifCopyPieceSize = 0
+
+func VerifCopyPiece(orig int) int {
+	if VerifCopyPieceSize > 0 {
+		return VerifCopyPieceSize
+	}
+	return orig
+}
